@@ -359,7 +359,8 @@ def work_z3str(inst) -> dict:
     tried = []
     # ladder of bounds: `unknown` (time-out, e.g. on a loaded machine) at length L is retried once with a longer
     # time-out and then at L-1, L-2; the bound that was actually decided is what the evidence states.  Never below 4.
-    for bound, timeout_ms in [(L, 300000), (L, 900000)] + [(b, 600000) for b in range(L - 1, 3, -1)]:
+    ladder = [(L, 300000), (L, 900000)] + [(b, 600000) for b in range(L - 1, 3, -1)] if L <= 6 else [(b, 300000) for b in range(L, 3, -1)]
+    for bound, timeout_ms in ladder:
         sol = z3.Solver()
         sol.set("timeout", timeout_ms)
         sol.add(z3.InRe(p, alphabet), z3.InRe(s, alphabet), z3.Length(p) >= 1, z3.Length(p) <= bound, z3.Length(s) <= bound, define, code != meaning)
